@@ -359,7 +359,7 @@ fn random_breaks(rng: &mut Rng, len: usize) -> Vec<usize> {
 }
 
 /// one input file of format `fmt`
-fn make_file(rng: &mut Rng, fmt: &str) -> Vec<u8> {
+pub fn make_file(rng: &mut Rng, fmt: &str) -> Vec<u8> {
     use sam::alignment::io::Write as _;
     use vcf::variant::io::Write as _;
     let crlf = rng.chance(1, 5);
@@ -561,7 +561,12 @@ fn sync_read(fmt: &str, file: &[u8]) -> T {
             let mut r = bcf::io::Reader::new(file);
             let h = match r.read_header() {
                 Ok(h) => h,
-                Err(err) => return vec![e(&err)],
+                Err(err) => {
+                    if std::env::var_os("VERIF_C16_RDSTAT").is_some() {
+                        eprintln!("RDSTAT bcf header error: {err}");
+                    }
+                    return vec![e(&err)];
+                }
             };
             t.push(dbg(&h));
             drain_sync(&mut t, r.records().map(|x| x.map(|rec| vcf::variant::RecordBuf::try_from_variant_record(&h, &rec))));
@@ -796,6 +801,38 @@ fn compare(s: &T, a: &T) -> Result<(), (&'static str, String)> {
     Err((class, format!("item#{i} sync={x} async={y}")))
 }
 
+/// length of an ITF8 / LTF8 value from its first byte
+pub fn tf8_len(b: u8, long: bool) -> usize {
+    let n = b.leading_ones() as usize;
+    if long { n.min(8) + 1 } else { n.min(4) + 1 }
+}
+
+/// (offset of the first block of the header container, container length) of a CRAM 3.x file
+pub fn cram_header_container_body(f: &[u8]) -> Option<(usize, usize)> {
+    let mut at = 26;
+    let len = i32::from_le_bytes(f.get(at..at + 4)?.try_into().ok()?);
+    at += 4;
+    for long in [false, false, false, false, true, true, false] {
+        at += tf8_len(*f.get(at)?, long);
+    }
+    let n = *f.get(at)? as usize; // landmark count (< 128 here)
+    if n >= 128 || len < 0 {
+        return None;
+    }
+    at += 1;
+    for _ in 0..n {
+        at += tf8_len(*f.get(at)?, false);
+    }
+    at += 4;
+    Some((at, len as usize))
+}
+
+/// the compression method byte of the first block of the header container
+pub fn cram_header_block_method(f: &[u8]) -> Option<u8> {
+    let (at, len) = cram_header_container_body(f)?;
+    if len == 0 { None } else { f.get(at).copied() }
+}
+
 fn fmt_family(fmt: &str) -> &str {
     match fmt {
         "bamlazy" => "bam",
@@ -825,6 +862,10 @@ fn run_rd(c: &Case) -> Obs {
     if tripped.load(Ordering::SeqCst) {
         return Obs::fail("-", &format!("async-{fam}-hang"), format!("poll limit reached file={}", crate::short_hex(&file)));
     }
+    if std::env::var_os("VERIF_C16_RDSTAT").is_some() {
+        // development aid: which end each transcript reached (one line per case on stderr)
+        eprintln!("RDSTAT {fmt} len={} last={}", s.len(), s.last().map(|x| x.chars().take(40).collect::<String>()).unwrap_or_default());
+    }
     let nontrivial = s.len() >= 3 || (matches!(fmt, "csi" | "tbi") && !s[0].starts_with("Err"));
     match compare(&s, &a) {
         Ok(()) => Obs::ok("-", nontrivial),
@@ -850,6 +891,17 @@ fn run_rd(c: &Case) -> Obs {
                         }
                     }
                 }
+            }
+            // CRAM: the header container's block says gzip (method 1) but its data is not a well-formed gzip
+            // stream: flate2's GzDecoder (sync) reports InvalidInput, async_compression's GzipDecoder InvalidData
+            if fmt == "cram"
+                && cram_header_block_method(&file) == Some(1)
+                && s.len() == 1
+                && a.len() == 1
+                && s[0] == "Err:InvalidInput"
+                && a[0] == "Err:InvalidData"
+            {
+                return Obs::fail("-", "async-cram-header-gzip-block-malformed-error-kind", format!("{detail} file={}", crate::short_hex(&file)));
             }
             // FASTA: a CR at the beginning of a sequence line (followed by a byte other than LF) is kept by
             // the async reader and skipped by the sync one
